@@ -1,6 +1,7 @@
 /-
-Helper lemmas for C19, part 8: the single-attribute form
-`versiontest.ParseSingle(lower(key) + " " + strconv.Quote(value))` for ASCII values.
+Helper lemmas for C19, part 8: `strings.TrimSpace` and `strings.Cut` on the text of the
+single-attribute form `lower(key) + " " + strconv.Quote(value)` (the round trip itself
+is `ver_single_roundtrip_all` in C19DepAll).
 -/
 import DepsDev.Proofs.C19Quote
 
@@ -57,49 +58,5 @@ theorem cutSpace_append (name q : Bytes) (h : ∀ b ∈ name, b ≠ 0x20) :
     have ha : (a == 0x20) = false := by simpa using h a (by simp)
     simp only [List.cons_append, cutSpace, ha, Bool.false_eq_true, if_false]
     rw [ih (fun b hb => h b (by simp [hb]))]
-
-/-- `versiontest.ParseSingle` reads the written form of one attribute back: the result
-holds exactly that attribute. -/
-theorem ver_single_roundtrip (h : Heap) (key : Int) (hkey : key ∈ C19AttrKeys.versionAllKeys)
-    (v : Bytes) (hv : isAscii v = true) :
-    ∃ h' s', versionParseSingle h (singleText key v) = .ok (h', s') ∧ SetOK h' s' ∧
-      absOf h' s' = stepAbs (0, fun _ => none) (key, v) := by
-  have hplain := ver_names_plain key hkey
-  simp only [plainTok, Bool.and_eq_true, Bool.not_eq_eq_eq_not, Bool.not_true] at hplain
-  obtain ⟨hne, hns⟩ := hplain
-  cases hn : verLowerName key with
-  | nil => simp [hn] at hne
-  | cons n0 ns =>
-    rw [hn] at hns
-    have hsw : spaceWidth (n0 :: ns) = 0 := by
-      rw [hasSpace_cons] at hns
-      simp only [Bool.or_eq_false_iff, bne_eq_false_iff_eq, beq_iff_eq] at hns
-      exact hns.1
-    -- the whole text, as  n0 :: (mid ++ ["])
-    have htext : singleText key v = n0 :: ((ns ++ 0x20 :: 0x22 :: quoteGo v 0) ++ [0x22]) := by
-      simp [singleText, hn, quote]
-    have hsw2 : spaceWidth (n0 :: ((ns ++ 0x20 :: 0x22 :: quoteGo v 0) ++ [0x22])) = 0 := by
-      have : n0 :: ((ns ++ 0x20 :: 0x22 :: quoteGo v 0) ++ [0x22]) =
-          (n0 :: ns) ++ 0x20 :: (0x22 :: quoteGo v 0 ++ [0x22]) := by simp
-      rw [this, spaceWidth_append_space]; exact hsw
-    have htrim : trimSpace (singleText key v) = (n0 :: ns) ++ 0x20 :: quote v := by
-      rw [htext, trimSpace_id _ _ hsw2]; simp [quote]
-    have hcut : cutSpace (trimSpace (singleText key v)) = (n0 :: ns, quote v, true) := by
-      rw [htrim]; exact cutSpace_append _ _ (no_space_of_hasSpace _ hns)
-    have htq : trimSpace (quote v) = quote v := by
-      have : quote v = 0x22 :: (quoteGo v 0 ++ [0x22]) := rfl
-      rw [this]; exact trimSpace_id _ _ (spaceWidth_quote _)
-    have hlook := ver_lookup key hkey
-    rw [hn] at hlook
-    obtain ⟨h2, s2, he, hok, habs⟩ := addAttr_abs h Set.zero key v (setOK_zero h)
-      (fun _ => ver_keys_lt key hkey)
-    refine ⟨h2, s2, ?_, hok, ?_⟩
-    · dsimp only [versionParseSingle]
-      rw [hcut]
-      simp only [if_true, htq]
-      have hq : (quote v).head? = some 0x22 := rfl
-      simp only [hq, beq_self_eq_true, Bool.true_or, if_true, unquote_quote v hv, hlook]
-      exact he
-    · rw [habs]; rfl
 
 end DepsDev.Proofs.C19
